@@ -163,7 +163,7 @@ PENDING_REASON = "check not built yet in this session (framework under construct
 def main():
     m = {
         "version": 1,
-        "setup_cmd": "/venv/bin/python tools/extract.py && cd lean && lake build Cider ciderdrv",
+        "setup_cmd": "/venv/bin/python tools/extract.py && /venv/bin/python tools/pyexpr2lean.py && cd lean && lake build Cider ciderdrv",
         "hooks": {"guard": "LOCALCIDER_VERIF",
                   "enable": "LOCALCIDER_VERIF=1 in the environment of the process that imports localcider (pure Python, no build step); ./check sets it",
                   "baseline_off_cmd": "cd /repo && /venv/bin/python -m pytest -ra -q -p no:cacheprovider --timeout=900 --continue-on-collection-errors",
